@@ -703,6 +703,7 @@ class Request(object):
 
 
 XSI_NIL = '{http://www.w3.org/2001/XMLSchema-instance}nil'
+_TNS = [None]       # target namespace of the application being encoded for
 
 
 def _xml_value(parent, ns, name, spec, value, nil=False):
@@ -741,7 +742,12 @@ def _xml_value(parent, ns, name, spec, value, nil=False):
         el = etree.SubElement(parent, '{%s}%s' % (ns, name))
         acls = spec.cls
         member_name, = acls._type_info.keys()
+        # (an anonymous array gets the namespace of the class holding it when
+        # the application is built, which may not have happened yet)
         ans = acls.get_namespace()
+        if not ans:
+            ans = (spec.item.cls.get_namespace()
+                   if spec.item.kind == 'complex' else None) or _TNS[0] or ns
         for item in value:
             _xml_value(el, ans, member_name, spec.item, item, nil)
     else:
@@ -802,6 +808,7 @@ def encode_request(uni, in_prot, mname, args, wrappers=False, app=None,
     m = uni.methods[mname]
     wire = method_name or mname
     tns = uni.tns
+    _TNS[0] = tns
     kind = PROTOCOLS[in_prot][1]
     label = (mname, 'call')
     if kind == 'xml':
